@@ -178,7 +178,9 @@ def _t3(t):
     return f'({i},{0 if v is None else v},{0 if w is None else w})'
 
 
-def digest(b):
+def digest(b, vars_view=None):
+    """`vars_view`: the `vars` attribute as the user sees it (dd.autoref keeps
+    its own alias of the wrapped manager's dict)"""
     succ = ';'.join(f'{u}:{_t3(t)}' for u, t in sorted(b._succ.items()))
     pred = ';'.join(
         f'{_t3(t)}:{u}' for t, u in sorted(
@@ -188,7 +190,8 @@ def digest(b):
     ite = ';'.join(
         f'({g},{u},{v}):{w}' for (g, u, v), w in sorted(b._ite_table.items()))
     vars_ = ';'.join(
-        f'{k}:{l}' for k, l in sorted((vid(k), l) for k, l in b.vars.items()))
+        f'{k}:{l}' for k, l in sorted(
+            (vid(k), l) for k, l in (b.vars if vars_view is None else vars_view).items()))
     l2v = ';'.join(
         f'{l}:{k}' for l, k in sorted(
             (l, vid(k)) for l, k in b._level_to_var.items()))
@@ -637,7 +640,7 @@ class Impl:
 
     def adigest(self, m):
         hs = ';'.join(f'{h}:{f.node}' for h, f in sorted(self.handles[m].items()))
-        return digest(self.amgr[m]._bdd) + ' handles={' + hs + '}'
+        return digest(self.amgr[m]._bdd, self.amgr[m].vars) + ' handles={' + hs + '}'
 
     # each op_<name>(b, *args) returns a Python value
     def op_new(self, m, levels):
